@@ -24,7 +24,42 @@ CHECKS = {
   technique="Coq proof (invariant + refinement by induction over operations) + differential correspondence + impl monitor", design="6/C15"),
 }
 
+
+ENVNOTE = 'Trusted: Coq kernel+VM; symbolic AEAD/KMS (AES-GCM correctness+integrity, crypto/rand uniqueness assumed; the harness runs the real ones); virtual clock via build-time overlay; differential tie is testing. The envelope model (coq/Envelope/*.v) follows envelope.go, key_cache.go, session.go, session_cache.go function by function incl. deferred Closes; full boundary-call traces agreed on every generated history.'
+
+def env(text, note, design, technique="Coq theorems on the executable envelope model + full-trace differential correspondence + impl monitor"):
+    return dict(text=text, note=ENVNOTE + " " + note, technique=technique, design=design)
+
+CHECKS.update({
+ "C01": env("Histories (any policy, caches, faults, revocations, rotations, restarts) are run on the real SDK and on the Coq envelope model; API results must agree, every genuine record must decrypt to its payload in "
+            "a live session and in an independent fresh-process reference decryptor, caller buffers must be unchanged.", "Partial: round-trip theorem over all histories is being proved; today the universal part is the model's "
+            "symbolic decrypt lemmas.", "6/C01"),
+ "C02": env("Fault plans (err / false duplicate / error-after-write on every metastore, KMS, AEAD, allocator call, singles and pairs) on cold/warm/rotating states: a returned record's IK row and SK row must be in the "
+            "authoritative store at return and a fresh process must decrypt it; an unfaulted encrypt must succeed. Store monotonicity is proved for every SDK operation.", "Partial: durability theorem in progress.", "6/C02"),
+ "C03": env("AEAD/KMS/secret-factory call traces must equal the model's; payload sealed only under a data key generated in the same operation, data key used once, real (key, nonce) pairs unique, plaintext scan of rows/records/log lines/KMS traffic.",
+            "Nonce/key freshness of crypto/rand is an assumption; the theorem is that the code asks for a fresh key and nonce every time.", "6/C03"),
+ "C04": env("Boundary-clock histories: no record under an expired IK, no IK created under an expired SK (when no fault is injected), IK dropped within one interval of its SK's expiry.",
+            "Known findings C04-IK (decrypt-path refresh) are reported, not suppressed for other causes.", "6/C04"),
+ "C05": env("Revocation of latest/older IK/SK at boundary offsets: bound of one interval (IK) / two intervals (parent SK) when a later stamp is creatable.", "Known finding C05-IK.", "6/C05"),
+ "C07": env("Every mutation kind (bit flips, truncations, splices, nil fields, foreign parents) on genuine records plus corrupted metastore rows: decrypt returns the original payload of the Data it carries or an error, never other bytes, never panics.",
+            "Symbolic AEAD: a modified ciphertext opens under no key.", "6/C07"),
+ "C09": env("Secret creation/release traces must equal the model's (release compared as a set per operation); no use after release, no double release, nothing live with caching disabled, nothing live after teardown.",
+            "Known finding C09-J (system key looked up on parent mismatch is never released).", "6/C09"),
+ "C10": env("Every buffer returned by AEAD/KMS key-unwrapping calls and every buffer passed to a failing SecretFactory.New is re-read after the public call returns and must be all zero.",
+            "Partial: the AWS plugins' buffers are covered by the C17 harness; the model has no byte-level buffer table yet (monitor decides).", "6/C10"),
+ "C20": env("Metastore/KMS call traces must equal the model's; with simple caches no key record is re-read and no system key re-unwrapped within one interval of its last load; with caching disabled every operation re-reads and nothing stays live.",
+            "Restricted to keys valid at the time (the revoked-latest corner must consult the metastore).", "6/C20"),
+})
+
 NOT_APPLICABLE = []
+
+
+def category_of(pid):
+    import re
+    src = os.path.join(ROOT, "coq", "Properties", pid + ".v")
+    if os.path.exists(src) and re.search(r"^\s*Theorem\s", open(src).read(), flags=re.M):
+        return "proof"
+    return "exploration"
 
 
 def main():
@@ -38,7 +73,7 @@ def main():
             "evidence_file": "evidence/%s.json" % pid,
             "replay_cmd_template": "./check %s --replay {path}" % pid,
             "engine": "coq+vrun",
-            "level_claimed": {"category": c.get("category", "proof"), "text": c["text"], "design_ref": "DESIGN.md §" + c["design"]},
+            "level_claimed": {"category": c.get("category", category_of(pid)), "text": c["text"], "design_ref": "DESIGN.md §" + c["design"]},
             "level_note": c["note"],
             "technique": c["technique"],
         })
